@@ -49,6 +49,7 @@ class Gen:
         self.model = model or {}
         self.rng = rng
         self.used_model = False
+        self.streams = {}
 
     def get(self, name):
         for k in (name, name.replace('!h', '')):
@@ -115,6 +116,7 @@ def concrete(shape, name, g):
         if not isinstance(pos, int):
             pos = g.rng.choice([0, 0, 0, g.rng.randrange(0, len(data) + 2)])
         s.seek(max(0, pos))
+        g.streams[name + '.B'] = s
         return s
     if isinstance(shape, S.Rec):
         from elftools.construct.lib.container import Container
@@ -145,6 +147,33 @@ def concrete(shape, name, g):
             n = g.rng.randrange(0, 5)
         return [concrete(shape.inner, '%s[%d]' % (name, i), Gen({}, g.rng)) for i in range(min(n, 64))]
     raise NativeUnavailable('no native generator for shape %s' % type(shape).__name__)
+
+
+def apply_synth(g, args):
+    """write the parse results of the solver model into the concrete streams"""
+    syn = (g.model or {}).get('__synth__') or []
+    if not syn:
+        return
+    from specs import sem, k1_native
+    for inst in syn:
+        st = g.streams.get(inst['array'])
+        if st is None:
+            continue
+        try:
+            nf = k1_native.current_cfg_layout(inst['layout'])
+            raw = sem.encode(nf, inst['fields'])
+        except Exception:
+            continue
+        data = bytearray(st.getvalue())
+        p = inst['pos']
+        if p < 0 or p + len(raw) > len(data):
+            continue
+        data[p:p + len(raw)] = raw
+        pos = st.tell()
+        st.seek(0)
+        st.write(bytes(data))
+        st.truncate(len(data))
+        st.seek(pos)
 
 
 def rand_bytes(arrname, lenname, g):
@@ -296,6 +325,12 @@ def run_once(c, func, g, exprs):
         args = {p: concrete(s, p, g) for p, s in params.items()}
     except NativeUnavailable as e:
         return dict(status='unavailable', why=str(e))
+    try:
+        from specs import k1_native
+        k1_native.set_cfg_from(list(args.values()))
+        apply_synth(g, args)
+    except Exception as e:
+        return dict(status='unavailable', why='input synthesis failed: %r' % (e,))
     env = native_globals()
     env.update(args)
     try:
